@@ -2619,7 +2619,7 @@ class SQLiteDialect(default.DefaultDialect):
         table_data = self._get_table_sql(connection, table_name, schema=schema)
         if table_data:
             PK_PATTERN = (
-                r'CONSTRAINT\s+(?:"((?:[^"]|"")+)"|(\w+))\s+PRIMARY\s+KEY'
+                r'CONSTRAINT\s+(?:"((?:[^"]|"")+)"|([\w$]+))\s+PRIMARY\s+KEY'
             )
             result = re.search(PK_PATTERN, table_data, re.I)
             if result:
@@ -2727,10 +2727,10 @@ class SQLiteDialect(default.DefaultDialect):
             # so parsing the columns is really about matching it up to what
             # we already have.
             FK_PATTERN = (
-                r'(?:CONSTRAINT\s+(?:"((?:[^"]|"")+)"|(\w+))\s+)?'
+                r'(?:CONSTRAINT\s+(?:"((?:[^"]|"")+)"|([\w$]+))\s+)?'
                 r"FOREIGN\s+KEY\s*\(\s*(.+?)\s*\)\s+"
-                r'REFERENCES\s+(?:(?:"((?:[^"]|"")+)")|([a-z0-9_]+))\s*'
-                r'\(\s*((?:(?:"(?:[^"]|"")+"|[a-z0-9_]+)\s*(?:,\s*)?)+)\)\s*'
+                r'REFERENCES\s+(?:(?:"((?:[^"]|"")+)")|([a-z0-9_$]+))\s*'
+                r'\(\s*((?:(?:"(?:[^"]|"")+"|[a-z0-9_$]+)\s*(?:,\s*)?)+)\)\s*'
                 r"(?:MATCH\s+\w+\s*)?"
                 r"((?:ON\s+(?:DELETE|UPDATE)\s+"
                 r"(?:SET\s+NULL|SET\s+DEFAULT|CASCADE|RESTRICT|"
@@ -2837,7 +2837,7 @@ class SQLiteDialect(default.DefaultDialect):
 
     def _find_cols_in_sig(self, sig):
         for match in re.finditer(
-            r'(?:"((?:[^"]|"")+)")|([a-z0-9_]+)', sig, re.I
+            r'(?:"((?:[^"]|"")+)")|([a-z0-9_$]+)', sig, re.I
         ):
             yield (
                 self._unescape_quoted_name(match.group(1)) or match.group(2)
@@ -2869,11 +2869,11 @@ class SQLiteDialect(default.DefaultDialect):
             if table_data is None:
                 return
             UNIQUE_PATTERN = (
-                r'(?:CONSTRAINT\s+(?:"((?:[^"]|"")+)"|(\w+))\s+)?'
+                r'(?:CONSTRAINT\s+(?:"((?:[^"]|"")+)"|([\w$]+))\s+)?'
                 r"UNIQUE\s*\((.+?)\)"
             )
             INLINE_UNIQUE_PATTERN = (
-                r'(?:("(?:[^"]|"")+")|(?:[\[`])?([a-z0-9_]+)(?:[\]`])?)[\t ]'
+                r'(?:("(?:[^"]|"")+")|(?:[\[`])?([a-z0-9_$]+)(?:[\]`])?)[\t ]'
                 r"+[a-z0-9_]+(?:[\t ]+[a-z0-9_]+)*?[\t ]+UNIQUE"
             )
 
